@@ -582,3 +582,42 @@ pub fn handshake(srv: &mut Srv, cli: &mut Cli, dt: Duration, max_steps: usize) -
     }
     Err("handshake did not complete".into())
 }
+
+
+// ------------------------------------------------------------------------------------------
+// Independent reference for the AEAD framing of sealed datagrams (netcode 1.02 wire standard):
+// ChaCha20-Poly1305, nonce = 4 zero bytes || 8-byte little-endian sequence, associated data =
+// version info (13) || protocol id (8, LE) || prefix byte. Uses the cipher crate directly, not
+// the library's crypto module, so that the nonce the library really used can be established.
+// ------------------------------------------------------------------------------------------
+
+/// Tries to open the sealed body of `bytes` under `key` with the nonce that the standard derives from
+/// `nonce_sequence` (which need not be the sequence announced in the datagram). Returns the plaintext body.
+pub fn ref_open_with_nonce(bytes: &[u8], protocol_id: u64, key: &[u8; 32], nonce_sequence: u64) -> Option<Vec<u8>> {
+    use chacha20poly1305::{AeadInPlace, ChaCha20Poly1305, Key, KeyInit, Nonce, Tag};
+    let prefix = *bytes.first()?;
+    if prefix_type(prefix) == 0 {
+        return None;
+    }
+    let n = prefix_seq_len(prefix);
+    if n > 8 || bytes.len() < 1 + n + 16 {
+        return None;
+    }
+    let mut aad = [0u8; 22];
+    aad[..13].copy_from_slice(b"NETCODE 1.02\0");
+    aad[13..21].copy_from_slice(&protocol_id.to_le_bytes());
+    aad[21] = prefix;
+    let body = &bytes[1 + n..];
+    let (ct, tag) = body.split_at(body.len() - 16);
+    let mut buf = ct.to_vec();
+    let mut nonce = [0u8; 12];
+    nonce[4..12].copy_from_slice(&nonce_sequence.to_le_bytes());
+    let cipher = ChaCha20Poly1305::new(Key::from_slice(key));
+    cipher.decrypt_in_place_detached(&Nonce::from(nonce), &aad, &mut buf, Tag::from_slice(tag)).ok()?;
+    Some(buf)
+}
+
+/// Opens under the nonce of the datagram's own announced sequence.
+pub fn ref_open(bytes: &[u8], protocol_id: u64, key: &[u8; 32]) -> Option<Vec<u8>> {
+    ref_open_with_nonce(bytes, protocol_id, key, wire_sequence(bytes)?)
+}
